@@ -322,6 +322,8 @@ def gen_program(rng, n_meas=None, n_ops=None, rational_only=False, allow_pairs=T
 
         def const():
             c = rng.choice([1, 2, 3, -1, -2, 0.5, 1.5, 2.5, 4, 0.25, dyadic(rng, -2, 6)])
+            if op in ("mul", "div") and rng.random() < 0.12:
+                c = rng.choice([2.0 ** -30, 2.0 ** -40, 2.0 ** 30, 3 * 2.0 ** -31])   # scale factors: small / large derivatives
             if op == "pow" and form == "oc":
                 c = rng.choice([2, 3, -1, -2, 2, 0.5, 1.5, 1, 4]) if not rational_only else rng.choice([2, 3, -1, -2, 1, 4])
             return c
@@ -356,7 +358,7 @@ def gen_program(rng, n_meas=None, n_ops=None, rational_only=False, allow_pairs=T
             nv = py_bin(op, a, b)
         except (ValueError, ZeroDivisionError, OverflowError):
             continue
-        if isinstance(nv, complex) or not (abs(nv) < 2 ** 16) or (nv != 0 and abs(nv) < 2 ** -16):
+        if isinstance(nv, complex) or not (abs(nv) < 2 ** 48) or (nv != 0 and abs(nv) < 2 ** -70):
             continue
         steps.append(["bin", op, ra, rb])
         for ref in (ra, rb):
@@ -366,6 +368,24 @@ def gen_program(rng, n_meas=None, n_ops=None, rational_only=False, allow_pairs=T
         vals.append(nv)
         kinds.append("der")
         made += 1
+        if form == "oo" and op in ("sub", "div", "pow", "log2") and i != j and rng.random() < 0.3 \
+                and in_domain_bin(op, b, a, False):
+            # the same two operands in the OTHER order, and both results in one formula
+            try:
+                rv = py_bin(op, b, a)
+                comb = rng.choice(["add", "mul"])
+                cv = py_bin(comb, nv, rv)
+                if not isinstance(rv, complex) and abs(rv) < 2 ** 16 and abs(cv) < 2 ** 16:
+                    first = len(vals) - 1
+                    steps.append(["bin", op, ["obj", j], ["obj", i]])
+                    vals.append(rv)
+                    kinds.append("der")
+                    steps.append(["bin", comb, ["obj", first], ["obj", first + 1]])
+                    vals.append(cv)
+                    kinds.append("der")
+                    made += 2
+            except (ValueError, ZeroDivisionError, OverflowError):
+                pass
         if rng.random() < 0.2:
             steps.append(["read", len(vals) - 1])
     # correlations between measurements with non-zero uncertainty (explicit measurements only)
@@ -474,7 +494,7 @@ def domain_ok(model, override=None):
             b_int = m[3][0] == "const" and float(m[3][1]).is_integer()
             if not in_domain_bin(m[1], _rv(vals, m[2]), _rv(vals, m[3]), b_int):
                 return False
-        if isinstance(vals[k], complex) or not (abs(vals[k]) < 2 ** 20):
+        if isinstance(vals[k], complex) or not (abs(vals[k]) < 2 ** 50):
             return False
     return True
 
@@ -632,6 +652,8 @@ def oracle_object(model, corr, obs, derivs_only=False):
         if not fderr <= 1e-6 * (abs(fd) + 1e-3):
             return None        # finite differences inconclusive on this (ill-conditioned) formula
         dref[m] = fd
+        if d == 0 and fd != 0 and abs(fd) > 1e6 * fderr and abs(fd) > 1e-30:
+            return "derivative with respect to measurement {} is exactly 0 but the formula depends on it (partial derivative {})".format(m, fd)
         tol = 2e-6 * max(abs(fd), abs(d)) + 20 * fderr + 1e-7 * (1 + abs(f0)) / max(1.0, abs(model[m][1]))
         if not abs(fd - d) <= tol:
             return "derivative with respect to measurement {} is {} but the partial derivative of the formula is {}".format(
